@@ -851,6 +851,9 @@ func ruleR10_1_3(w *World, r *Report) {
 						}
 					}
 				case *ssa.Store:
+					if l, ok := level1Binding(x); ok && l == lit {
+						bound = true
+					}
 					if qualField(x.Addr) == "solver.Solver.trail" {
 						if c, ok := x.Val.(*ssa.Call); ok {
 							if e := appendedElem(c); e == lit {
